@@ -544,7 +544,9 @@ class Runner:
             if before.get(key) != after.get(key):
                 raise Fail("other_peers_records_untouched", {"peer": list(key) if key else None, "before": repr(before.get(key)), "after": repr(after.get(key))}, "unchanged")
         if getattr(self, "expect_unchanged", False) and k != "cfg":
-            if before != after or step_before != dict(self.rdac.step) or done_before != len(self.done):
+            # (the blank record a source gets on its very first RDAC datagram is created before anything can raise: not a change)
+            settled = {key: v for key, v in after.items() if key in before or key != addr}
+            if before != settled or step_before != dict(self.rdac.step) or done_before != len(self.done):
                 raise Fail("exception_only_without_state_change", {"records_changed": before != after, "steps": dict(self.rdac.step)}, {"steps": step_before})
         # other peers' steps
         for ip in set(step_before) | set(self.rdac.step):
@@ -845,6 +847,12 @@ def drv_twins(ctx: Ctx, sub: SubCheck):
                        {"k": "rdac", "peer": b, "kind": "one", "v": 0}, {"k": "rdac_run", "peer": a, "count": 13}, {"k": "rdac_run", "peer": b, "count": 13}]
                 ctx.run_case(sub.name, oracle_history, {"ops": ops}, t)
                 t.case(sub.name, nontrivial=True, cls="scripted_rdac_interleaved")
+
+        # the other twin's FIRST datagram is one that may raise (bad step-6 texts, short step-10 response) while the shared / own step is there
+        for count, probe in ((6, {"kind": "expected", "bad": 0}), (6, {"kind": "pfx", "x": 0, "bad": 2}), (9, {"kind": "expected", "n": 10}), (9, {"kind": "pfx", "x": 0, "n": 26})):
+            ops = [{"k": "rdac_run", "peer": a, "count": count}, dict({"k": "rdac", "peer": b}, **probe), {"k": "rdac", "peer": a, "kind": "expected"}, {"k": "rdac", "peer": b, "kind": "expected"}]
+            ctx.run_case(sub.name, oracle_history, {"ops": ops}, t)
+            t.case(sub.name, nontrivial=True, cls="scripted_rdac_first_datagram_may_raise")
 
     ctx.shards(scripted, TWINS)
 
